@@ -9,7 +9,9 @@ spec/ReadelfEnvelope.tla, which puts them into an ELF container with the specifi
 Sources of C18's own (no other property builds these structures inside the envelope of a whole-file dump): 'dumps'
 (spec/ReadelfEnvelopeS.tla: sections for -x / -p), 'relocenv' (spec/ReadelfEnvelopeR.tla: the Reloc writer's tables with named
 symbols, for -r), 'exprctx' (spec/ReadelfEnvelopeE.tla: expressions in mixed unit contexts), 'cfinest' (spec/ReadelfEnvelopeC.tla:
-the CFI writer with an alphabet of blocks that nests DW_CFA_remember_state / DW_CFA_restore_state pairs, for frames / frames-interp).  A source may also emit SEQUENCES
+the CFI writer with an alphabet of blocks that nests DW_CFA_remember_state / DW_CFA_restore_state pairs, for frames / frames-interp),
+'locbase' (spec/ReadelfEnvelopeL.tla: pair-format location / range lists with base address selection entries {0, low_pc, other} in
+units with low_pc {0, non-zero}, for loc / Ranges / info).  A source may also emit SEQUENCES
 (cases with a 'seq' list of image keys): the images of a sequence are dumped one after the other by one process - the job's path is
 the paths joined by '|' (c18._one)."""
 import json
@@ -475,6 +477,29 @@ def _read_exprctx(run, path):
                    'cls': c['cls'], 'le': c['le'], 'machine': c['machine'], 'secs': _secs(info=c['info'], abbrev=c['abbrev'])}
 
 
+def _read_locbase(run, path):
+    """ReadelfEnvelopeL.tla: .debug_info / .debug_abbrev / .debug_loc / .debug_ranges of files whose units have every list of the
+    base-address alphabet; a case arrives as one line per piece of a section [k, n, i, sec, b] (lines stay below 8 KB)."""
+    pending, seen = {}, set()
+    for part in run.cases(path):
+        if part['k'] in seen:
+            continue                  # (a constraint may be evaluated more than once for one state)
+        slot = pending.setdefault(part['k'], {})
+        slot[part['i']] = part
+        if len(slot) < part['n']:
+            continue
+        del pending[part['k']]
+        seen.add(part['k'])
+        secs = {}
+        for i in sorted(slot):
+            secs.setdefault(slot[i]['sec'], []).extend(slot[i]['b'])
+        units = part['tag'].split('/', 1)[1].split('>')
+        yield {'tag': part['tag'], 'skey': '%s/%s' % (part['tag'], part['k']), 'key': part['k'], 'rank': 0 if len(units) > 1 else 1,
+               'cls': part['cls'], 'le': part['le'], 'machine': part['machine'], 'view': slot[1]['view'], 'secs': _secs(**secs)}
+    if pending:
+        raise core.MachineryError('%d cases of %s were emitted incompletely' % (len(pending), path))
+
+
 def _read_relocenv(run, path):
     """ReadelfEnvelopeR.tla: the class of a case is configuration / flavour / (negative addend with a symbol) / (entry without symbol)."""
     for c in _read_parts(run, path):
@@ -496,7 +521,8 @@ def _read_dumps(run, path):
 NOT_OFFERED = {
     'LocRange.tla (C07) -> --debug-dump=loc / Ranges':
         'the writer\'s compilation units have no DW_AT_low_pc (readelf.py raises ValueError "Can\'t find the base IP (low_pc) for a CU"), its location '
-        'expressions are arbitrary bytes, and GNU readelf 2.40 is too old an oracle for the DWARF5 sections (ORACLE_SKEW)',
+        'expressions are arbitrary bytes, and GNU readelf 2.40 is too old an oracle for the DWARF5 sections (ORACLE_SKEW); the pair-format '
+        'lists inside the envelope are written by spec/ReadelfEnvelopeL.tla (source locbase)',
     'Lookup.tla (C13) -> --debug-dump=aranges / pubnames / pubtypes':
         'the address-range sets name compilation-unit offsets that are not unit headers (GNU readelf: "does not point to a CU header"); most name '
         'tables carry non-ASCII names; readelf.py pairs the set headers of a name table with its entry groups by position, so a set without '
@@ -513,7 +539,7 @@ SOURCES = [
            _opt_cfi, sample=(300, 1500), wrap=True, tlc={'env': {'JAVA_TOOL_OPTIONS': '-Xss32m'}}, envelope=_env_cfi),
     Source('cfinest', 'ReadelfEnvelopeC', {'quick': ['ReadelfEnvelopeC_quick'], 'thorough': ['ReadelfEnvelopeC_thorough']}, _read_cfinest,
            _opt_cfi, sample=(240, 1200), wrap=True, tlc={'env': {'JAVA_TOOL_OPTIONS': '-Xss32m'}}, envelope=_env_cfi),
-    Source('versions', 'ReadelfEnvelopeV', {'quick': ['ReadelfEnvelopeV_quick'], 'thorough': ['ReadelfEnvelopeV_thorough']}, _read_versions, ['-V']),
+    Source('versions', 'ReadelfEnvelopeV', {'quick': ['ReadelfEnvelopeV_quick'], 'thorough': ['ReadelfEnvelopeV_thorough']}, _read_versions, ['-V', '-s']),
     Source('notes', 'Notes', {'quick': ['ReadelfEnvelope_Notes|Notes_quick'], 'thorough': ['Notes_quick']}, _read_notes, ['-n'], sample=(400, 2000), envelope=_env_notes),
     Source('elfimage', 'ElfImage', {'quick': ['ReadelfEnvelope_ElfImage|ElfImage_quick'], 'thorough': ['ElfImage_quick']}, _read_elfimage, ['-e'], sample=(300, 1500),
            envelope=_env_elfimage),
@@ -526,6 +552,8 @@ SOURCES = [
            ['-s'], sample=(150, 1000), tlc={'env': {'JAVA_TOOL_OPTIONS': '-Xss32m'}}, envelope=_env_symhash),
     Source('exprctx', 'ReadelfEnvelopeE', {'quick': ['ReadelfEnvelopeE_quick'], 'thorough': ['ReadelfEnvelopeE_thorough']}, _read_exprctx,
            ['--debug-dump=info'], sample=(300, 700), wrap=True, seqs=(400, 1500)),
+    Source('locbase', 'ReadelfEnvelopeL', {'quick': ['ReadelfEnvelopeL_quick'], 'thorough': ['ReadelfEnvelopeL_thorough']}, _read_locbase,
+           ['--debug-dump=loc', '--debug-dump=Ranges', '--debug-dump=info'], sample=(80, 450), wrap=True),
     Source('relocenv', 'ReadelfEnvelopeR', {'quick': ['ReadelfEnvelopeR_quick'], 'thorough': ['ReadelfEnvelopeR_quick']}, _read_relocenv, ['-r'],
            sample=(1300, 1300)),
     Source('reloc', 'Reloc', {'quick': ['ReadelfEnvelope_Reloc|Reloc_quick'], 'thorough': ['Reloc_quick']}, _read_reloc, ['-r'], sample=(300, 1500), envelope=_env_reloc),
